@@ -1,14 +1,30 @@
 /-
 C20  Front matter is carried verbatim and never leaks into the document.
 
-`splitOffFrontMatter` models `strings::split_off_front_matter` exactly (tied by the correspondence
-harness, exhaustively over short strings).  Proved here, for every text and delimiter:
-soundness (whatever is taken is a prefix of the text that starts with the delimiter alone on its
-line and ends with a line that is the delimiter alone, followed by a line end or the end of input),
-one `split_none_*` lemma per "merely resembles front matter" clause of the statement, completeness
-on uniformly terminated texts whose body lines do not start with the delimiter, and the line-number
-shift of the rest.  The points where the code departs from the statement are kept as
-`_counterexample` theorems and listed in known_findings.json.
+`splitOffFrontMatter` models `strings::split_off_front_matter` as it is since /repo commit d92265f
+("fix: recognise front matter line by line") exactly; it is tied to the real function by the
+correspondence harness, exhaustively over short strings.  `lines` is the LF / CRLF / CR line
+splitting of C08 (`parseLines_eq_lines`: the feeder's `process_line` calls are `lines` up to the
+NUL replacement).  Proved here, for every text and every non-empty delimiter, a complete
+characterisation of the splitter in terms of lines:
+
+* `split_recognised_iff`: something is taken exactly when the first line of the text (after an
+  optional BOM) is the delimiter and some later line is the delimiter;
+* `split_sound`: what is taken and what is left are the text, cut at a line boundary; the part
+  taken starts with the delimiter and a line ending; its lines are the delimiter, lines that are
+  not the delimiter, the delimiter, and one blank line exactly when one follows directly;
+* `split_complete`: on a text whose lines are `d :: body ++ d :: tail` with `d ∉ body` the part
+  taken has the lines `d :: body ++ [d]` (plus the blank line when `tail` starts with one) and
+  the rest has the remaining lines of `tail`;
+* the `split_none_*` corollaries, one per "merely resembles front matter" clause;
+* `split_lines_invariant`, `front_matter_any_line_endings`: the line-ending convention does not
+  matter (the C08 clause for the one raw-text reader in front of the feeder);
+* `lines_shift`, `front_matter_line_count`: the block parser is handed the lines of the rest,
+  numbered after the lines of the front matter (`count_line_endings`, /repo commit ef24343; see
+  `bare_cr_line_shift_repaired`).
+
+The four points where the code departed from the statement before d92265f are kept as `_repaired`
+theorems (old function `splitOld` next to the new one); so is the line count before ef24343.
 -/
 import Comrak.Lemmas.FrontMatter
 import Comrak.Lemmas.Feed
@@ -17,201 +33,218 @@ import Comrak.Lemmas.R2CmPrefix
 namespace Comrak.C20
 open Comrak Bytes Comrak.FrontMatter Comrak.Feed
 
-/-- Everything the splitter can return, spelled out. -/
-theorem split_cases (s0 d fm rest : Bytes) (h : splitOffFrontMatter s0 d = some (fm, rest)) :
-    ∃ eb A B, IsEol eb ∧ stripBom s0 = d ++ eb ++ A ++ 0x0A :: d ++ B ∧
-      ((B = [] ∧ fm = stripBom s0 ∧ rest = []) ∨
-       (∃ e2 B2, IsEol e2 ∧ B = e2 ++ B2 ∧
-          ((eolLen B2 = none ∧ fm = d ++ eb ++ A ++ 0x0A :: d ++ e2 ∧ rest = B2) ∨
-           (∃ e3 B3, IsEol e3 ∧ B2 = e3 ++ B3 ∧
-              fm = d ++ eb ++ A ++ 0x0A :: d ++ e2 ++ e3 ∧ rest = B3)))) := by
-  unfold splitOffFrontMatter at h
-  generalize stripBom s0 = s at h ⊢
-  simp only [] at h
-  split at h
-  · rename_i hpre
-    obtain ⟨t, ht⟩ := (isPrefixB_iff _ _).mp hpre
-    subst ht
-    rw [drop_len] at h
-    split at h
-    · exact absurd h (by simp)
-    · rename_i e1 he1
-      obtain ⟨eb, heb, hebl, ht⟩ := eolLen_some _ _ he1
-      generalize t.drop e1 = body at ht h
-      subst ht
-      have hd1 : (d ++ (eb ++ body)).drop (d.length + e1) = body := by
-        rw [← hebl, ← List.append_assoc, ← List.length_append, drop_len]
-      rw [hd1] at h
-      split at h
-      · exact absurd h (by simp)
-      · rename_i n hn
-        obtain ⟨A, B, hbody, hA⟩ := findClose_some _ _ _ hn
-        subst hbody
-        have hX : d.length + e1 + (n + 1 + d.length) = (d ++ eb ++ A ++ 0x0A :: d).length := by
-          simp only [List.length_append, List.length_cons]; omega
-        have hs : d ++ (eb ++ (A ++ 0x0A :: d ++ B)) = (d ++ eb ++ A ++ 0x0A :: d) ++ B := by
-          simp
-        rw [hX, hs] at h
-        refine ⟨eb, A, B, heb, by simp, ?_⟩
-        split at h
-        · rename_i hend
-          left
-          have hB : B = [] := by
-            have := congrArg List.length hs
-            simp only [List.length_append] at hend this
-            exact List.eq_nil_of_length_eq_zero (by omega)
-          simp only [Option.some.injEq, Prod.mk.injEq] at h
-          subst hB
-          exact ⟨rfl, by rw [← h.1]; simp, h.2.symm⟩
-        · right
-          rw [drop_len] at h
-          split at h
-          · exact absurd h (by simp)
-          · rename_i e2 he2
-            obtain ⟨e2b, he2b, he2l, hB⟩ := eolLen_some _ _ he2
-            generalize B.drop e2 = B2 at hB h
-            subst hB
-            refine ⟨e2b, B2, he2b, rfl, ?_⟩
-            have hd2 : ((d ++ eb ++ A ++ 0x0A :: d) ++ (e2b ++ B2)).drop
-                ((d ++ eb ++ A ++ 0x0A :: d).length + e2) = B2 := by
-              rw [drop_len_add, ← he2l, drop_len]
-            rw [hd2] at h
-            simp only [Option.some.injEq, Prod.mk.injEq] at h
-            cases he3 : eolLen B2 with
-            | none =>
-              left
-              simp only [he3, Option.getD_none, Nat.add_zero] at h
-              refine ⟨rfl, ?_, ?_⟩
-              · rw [← h.1, take_len_add, ← he2l]; simp
-              · rw [← h.2, drop_len_add, ← he2l]; simp
-            | some e3 =>
-              right
-              obtain ⟨e3b, he3b, he3l, hB2⟩ := eolLen_some _ _ he3
-              generalize B2.drop e3 = B3 at hB2
-              subst hB2
-              simp only [he3, Option.getD_some] at h
-              refine ⟨e3b, B3, he3b, rfl, ?_, ?_⟩
-              · rw [← h.1, Nat.add_assoc, take_len_add, ← he2l, ← he3l]
-                have : (e2b ++ (e3b ++ B3)).take (e2b.length + e3b.length) = e2b ++ e3b := by
-                  rw [take_len_add]; simp
-                rw [this]; simp
-              · rw [← h.2, Nat.add_assoc, drop_len_add, ← he2l, ← he3l, drop_len_add]; simp
-  · exact absurd h (by simp)
+/-! ### The lines of this file are the lines of C08 -/
+
+/-- `lines` is the C08 line splitting: the `process_line` calls of `parse_document` (`parseLines`,
+    proved equal to `Feed.splitLines` in Props/C08.lean) are `lines`, up to the replacement of NUL
+    by U+FFFD that the feeder performs on the way. -/
+theorem parseLines_eq_lines (s : Bytes) : parseLines s = (lines s).map nulToFFFD := by
+  have h1 : parseLines s = splitLines [] false s := by
+    cases s with
+    | nil => decide
+    | cons c t =>
+      have := feedLoop_spec (c :: t).length [] (c :: t) (Nat.le_refl _)
+      simpa [parseLines, feed] using this
+  have h2 := splitLines_eq_rawLines s [] false
+  simp only [nulToFFFD] at h2
+  rw [h1, h2]; rfl
+
+/-- ... and any mix of line-ending conventions gives the same lines. -/
+theorem lines_any_endings (x : Bytes) : lines (toLf false x) = lines x :=
+  rawLines_toLf x [] false
+
+/-! ### Soundness -/
 
 /-- **Soundness.** If the splitter takes a front matter then: front matter and rest are the text
-    (after an optional BOM); the front matter starts with the delimiter followed by a line end; its
-    closing delimiter is preceded by a line break and followed by a line end (plus at most one
-    blank line) or by the end of the input. -/
-theorem split_sound (s d fm rest : Bytes) (h : splitOffFrontMatter s d = some (fm, rest)) :
+    (after an optional BOM), cut at a line boundary (the lines of the text are the lines of the
+    one followed by the lines of the other); the front matter starts with the delimiter and a line
+    ending (LF, CRLF or CR); its lines are: the delimiter, then lines none of which is the
+    delimiter, then the delimiter, and after that either nothing - and then the rest does not
+    start with a blank line - or exactly one blank line. -/
+theorem split_sound (s d fm rest : Bytes) (hd : d ≠ [])
+    (h : splitOffFrontMatter s d = some (fm, rest)) :
     stripBom s = fm ++ rest ∧
-    ∃ e1 body tail, IsEol e1 ∧ fm = d ++ e1 ++ body ++ 0x0A :: d ++ tail ∧
-      ((tail = [] ∧ rest = []) ∨ IsEol tail ∨ ∃ e2 e3, IsEol e2 ∧ IsEol e3 ∧ tail = e2 ++ e3) := by
-  obtain ⟨eb, A, B, heb, hs, hc⟩ := split_cases s d fm rest h
-  rcases hc with ⟨hB, hfm, hrest⟩ | ⟨e2, B2, he2, hB, hc⟩
-  · subst hB hrest
-    refine ⟨by simp [hfm], eb, A, [], heb, by rw [hfm, hs], Or.inl ⟨rfl, rfl⟩⟩
-  · rcases hc with ⟨_, hfm, hrest⟩ | ⟨e3, B3, he3, hB2, hfm, hrest⟩
-    · subst hB hrest
-      refine ⟨by rw [hs, hfm]; simp, eb, A, e2, heb, hfm, Or.inr (Or.inl he2)⟩
-    · subst hB hB2 hrest
-      refine ⟨by rw [hs, hfm]; simp, eb, A, e2 ++ e3, heb, by rw [hfm]; simp, Or.inr (Or.inr ⟨e2, e3, he2, he3, rfl⟩)⟩
+    lines (stripBom s) = lines fm ++ lines rest ∧
+    (∃ e t, IsEol e ∧ fm = d ++ e ++ t) ∧
+    ∃ body, d ∉ body ∧
+      ((lines fm = d :: body ++ [d] ∧ (lines rest).head? ≠ some []) ∨
+       lines fm = d :: body ++ [d, []]) := by
+  obtain ⟨e, x, he, hj, hs⟩ := split_some_open s d _ h
+  rw [split_unfold s d e x hs he hj] at h
+  cases hr : closeLoop d ((e ++ x).length + 1) x with
+  | none => rw [hr] at h; simp at h
+  | some p =>
+    obtain ⟨a, rest'⟩ := p
+    rw [hr] at h
+    simp only [Option.map_some, Option.some.injEq, Prod.mk.injEq] at h
+    obtain ⟨rfl, rfl⟩ := h
+    obtain ⟨hx, hnd, hlx, body, hb, hcase⟩ := closeLoop_sound d hd _ x a rest' hr
+    have ha : a ≠ [] := by
+      intro h0
+      subst h0
+      rcases hcase with ⟨h1, _⟩ | h1 <;> simp [lines, rawLines] at h1
+    have hj' : Junction e a := junction_prefix e a rest' (hx ▸ hj) ha
+    have hla : lines (d ++ e ++ a) = d :: lines a := lines_line d e a hnd he hj'
+    refine ⟨by rw [hs, hx]; simp, ?_, ⟨e, a, he, rfl⟩, body, hb, ?_⟩
+    · rw [hs, lines_line d e x hnd he hj, hla, hlx]; simp
+    · rcases hcase with ⟨h1, h2⟩ | h1
+      · exact Or.inl ⟨by rw [hla, h1]; simp, h2⟩
+      · exact Or.inr (by rw [hla, h1]; simp)
+
+/-! ### Completeness -/
+
+/-- Recognition from the lines alone (no hypothesis on the delimiter). -/
+theorem split_isSome_of_lines (s d : Bytes) (body tail : List Bytes)
+    (hl : lines (stripBom s) = d :: body ++ d :: tail) (hb : d ∉ body) :
+    (splitOffFrontMatter s d).isSome = true := by
+  obtain ⟨c, t, hs, hc, ht⟩ := decomp (stripBom s)
+  rcases ht with rfl | ⟨e, x, he, hj, rfl⟩
+  · exfalso
+    simp only [List.append_nil] at hs
+    rw [hs, lines_noEol _ hc] at hl
+    split at hl <;> simp at hl
+  · have hs' : stripBom s = c ++ e ++ x := by simp [hs]
+    rw [hs', lines_line c e x hc he hj] at hl
+    simp only [List.cons_append, List.cons.injEq] at hl
+    obtain ⟨rfl, hlx⟩ := hl
+    rw [split_unfold s c e x hs' he hj, Option.isSome_map]
+    exact closeLoop_complete c _ x body tail (by simp; omega) hlx hb
+
+/-- **Completeness.** If the lines of the text (after an optional BOM) are the delimiter, lines
+    `body` none of which is the delimiter, the delimiter again and then `tail` - whatever line
+    endings the individual lines have, whether or not the last line has one, empty `body`
+    included - then the splitter takes exactly the lines `d :: body ++ [d]`, plus the first line
+    of `tail` when that is blank, and leaves the remaining lines. -/
+theorem split_complete (s d : Bytes) (hd : d ≠ []) (body tail : List Bytes)
+    (hl : lines (stripBom s) = d :: body ++ d :: tail) (hb : d ∉ body) :
+    ∃ fm rest, splitOffFrontMatter s d = some (fm, rest) ∧ stripBom s = fm ++ rest ∧
+      ((lines fm = d :: body ++ [d] ∧ lines rest = tail ∧ tail.head? ≠ some []) ∨
+       (lines fm = d :: body ++ [d, []] ∧ [] :: lines rest = tail)) := by
+  have hsome := split_isSome_of_lines s d body tail hl hb
+  cases hsp : splitOffFrontMatter s d with
+  | none => simp [hsp] at hsome
+  | some p =>
+    obtain ⟨fm, rest⟩ := p
+    obtain ⟨h1, h2, _, body', hb', hcase⟩ := split_sound s d fm rest hd hsp
+    refine ⟨fm, rest, rfl, h1, ?_⟩
+    rw [hl] at h2
+    rcases hcase with ⟨hf, hh⟩ | hf
+    · rw [hf] at h2
+      have h3 : body ++ d :: tail = body' ++ d :: lines rest := by simpa using h2
+      obtain ⟨r1, r2⟩ := first_occ_unique d _ _ _ _ h3 hb hb'
+      subst r1
+      exact Or.inl ⟨hf, r2.symm, r2 ▸ hh⟩
+    · rw [hf] at h2
+      have h3 : body ++ d :: tail = body' ++ d :: ([] :: lines rest) := by simpa using h2
+      obtain ⟨r1, r2⟩ := first_occ_unique d _ _ _ _ h3 hb hb'
+      subst r1
+      exact Or.inr ⟨hf, r2.symm⟩
+
+/-- **Recognition, exactly.** Something is taken if and only if the first line is the delimiter
+    and a later line is the delimiter. -/
+theorem split_recognised_iff (s d : Bytes) (hd : d ≠ []) :
+    (splitOffFrontMatter s d).isSome = true ↔
+      ∃ body tail, lines (stripBom s) = d :: body ++ d :: tail := by
+  constructor
+  · intro h
+    cases hsp : splitOffFrontMatter s d with
+    | none => simp [hsp] at h
+    | some p =>
+      obtain ⟨fm, rest⟩ := p
+      obtain ⟨_, h2, _, body, _, hcase⟩ := split_sound s d fm rest hd hsp
+      rcases hcase with ⟨hf, _⟩ | hf
+      · exact ⟨body, lines rest, by rw [h2, hf]; simp⟩
+      · exact ⟨body, [] :: lines rest, by rw [h2, hf]; simp⟩
+  · rintro ⟨body, tail, hl⟩
+    obtain ⟨b1, t1, hL, hb⟩ := first_occ d (body ++ d :: tail) (by simp)
+    exact split_isSome_of_lines s d b1 t1 (by rw [hl]; simp [hL]) hb
 
 /-! ### Text that merely resembles front matter -/
 
-/-- Not at the very start: unless the text (after an optional BOM) begins with the delimiter,
+/-- Not at the very start / opening delimiter not alone on its line: unless the first line of the
+    text (after an optional BOM) is the delimiter, nothing is taken. -/
+theorem split_none_first_line (s d : Bytes) (hd : d ≠ [])
+    (h : (lines (stripBom s)).head? ≠ some d) : splitOffFrontMatter s d = none := by
+  cases hsp : splitOffFrontMatter s d with
+  | none => rfl
+  | some p =>
+    exfalso
+    obtain ⟨body, tail, hl⟩ := (split_recognised_iff s d hd).mp (by simp [hsp])
+    exact h (by simp [hl])
+
+/-- Unterminated / closing delimiter not alone on its line: unless a later line is the delimiter,
     nothing is taken. -/
+theorem split_none_no_closing_line (s d : Bytes) (hd : d ≠ [])
+    (h : d ∉ (lines (stripBom s)).tail) : splitOffFrontMatter s d = none := by
+  cases hsp : splitOffFrontMatter s d with
+  | none => rfl
+  | some p =>
+    exfalso
+    obtain ⟨body, tail, hl⟩ := (split_recognised_iff s d hd).mp (by simp [hsp])
+    exact h (by simp [hl])
+
+/-- Byte-level form of "not at the very start". -/
 theorem split_none_not_at_start (s d : Bytes) (h : isPrefixB d (stripBom s) = false) :
     splitOffFrontMatter s d = none := by
   simp [splitOffFrontMatter, h]
 
-/-- Opening delimiter not alone on its line. -/
+/-- Byte-level form of "opening delimiter not alone on its line": the delimiter is followed by
+    something other than a line ending (or by the end of the input). -/
 theorem split_none_open_not_alone (s d t : Bytes) (hs : stripBom s = d ++ t)
-    (h1 : isPrefixB [0x0A] t = false) (h2 : isPrefixB [0x0D, 0x0A] t = false) :
-    splitOffFrontMatter s d = none := by
-  cases h : splitOffFrontMatter s d with
-  | none => rfl
-  | some p =>
-    obtain ⟨eb, A, B, heb, hs', _⟩ := split_cases s d p.1 p.2 h
-    rw [hs] at hs'
-    have : t = eb ++ (A ++ 0x0A :: d ++ B) := by
-      have := List.append_cancel_left (as := d) (by simpa using hs')
-      simpa using this
-    subst this
-    rcases heb with rfl | rfl
-    · simp [isPrefixB] at h1
-    · simp [isPrefixB] at h2
+    (h : lineEndingLen t = 0) : splitOffFrontMatter s d = none := by
+  simp [splitOffFrontMatter, hs, isPrefixB_self_append, h]
 
-/-- Unterminated: no later line break is followed by the delimiter. -/
-theorem split_none_unterminated (s d : Bytes)
-    (h : ∀ A B, stripBom s ≠ A ++ 0x0A :: d ++ B) : splitOffFrontMatter s d = none := by
-  cases hsp : splitOffFrontMatter s d with
-  | none => rfl
-  | some p =>
-    obtain ⟨eb, A, B, _, hs, _⟩ := split_cases s d p.1 p.2 hsp
-    exact absurd hs (h (d ++ eb ++ A) B)
+/-! ### Line endings do not matter (the C08 clause for the splitter) -/
 
-/-- Closing delimiter not alone on its line: if every line break + delimiter in the text is followed
-    by something other than a line end or the end of the input, nothing is taken. -/
-theorem split_none_close_not_alone (s d : Bytes)
-    (h : ∀ A B, stripBom s = A ++ 0x0A :: d ++ B → B ≠ [] ∧ eolLen B = none) :
-    splitOffFrontMatter s d = none := by
-  cases hsp : splitOffFrontMatter s d with
-  | none => rfl
-  | some p =>
-    obtain ⟨eb, A, B, _, hs, hc⟩ := split_cases s d p.1 p.2 hsp
-    have hB := h (d ++ eb ++ A) B hs
-    rcases hc with ⟨hnil, _, _⟩ | ⟨e2, B2, he2, hB2, _⟩
-    · exact absurd hnil hB.1
-    · exact absurd hB2 (eolLen_none B hB.2 e2 B2 he2)
+/-- Two texts with the same lines (whatever their line endings): if both are split, the parts
+    taken have the same lines and the rests have the same lines. -/
+theorem split_lines_invariant (s s' d fm rest fm' rest' : Bytes) (hd : d ≠ [])
+    (hl : lines (stripBom s) = lines (stripBom s'))
+    (h : splitOffFrontMatter s d = some (fm, rest)) (h' : splitOffFrontMatter s' d = some (fm', rest')) :
+    lines fm = lines fm' ∧ lines rest = lines rest' := by
+  obtain ⟨_, h2, _, b, hb, hc⟩ := split_sound s d fm rest hd h
+  obtain ⟨_, h2', _, b', hb', hc'⟩ := split_sound s' d fm' rest' hd h'
+  rw [hl, h2'] at h2
+  rcases hc with ⟨hf, hh⟩ | hf <;> rcases hc' with ⟨hf', hh'⟩ | hf'
+  · rw [hf, hf'] at h2
+    have h3 : b' ++ d :: lines rest' = b ++ d :: lines rest := by simpa using h2
+    obtain ⟨r1, r2⟩ := first_occ_unique d _ _ _ _ h3 hb' hb
+    subst r1
+    exact ⟨by rw [hf, hf'], r2.symm⟩
+  · rw [hf, hf'] at h2
+    have h3 : b' ++ d :: ([] :: lines rest') = b ++ d :: lines rest := by simpa using h2
+    obtain ⟨_, r2⟩ := first_occ_unique d _ _ _ _ h3 hb' hb
+    rw [← r2] at hh
+    exact absurd rfl hh
+  · rw [hf, hf'] at h2
+    have h3 : b' ++ d :: lines rest' = b ++ d :: ([] :: lines rest) := by simpa using h2
+    obtain ⟨_, r2⟩ := first_occ_unique d _ _ _ _ h3 hb' hb
+    rw [r2] at hh'
+    exact absurd rfl hh'
+  · rw [hf, hf'] at h2
+    have h3 : b' ++ d :: ([] :: lines rest') = b ++ d :: ([] :: lines rest) := by simpa using h2
+    obtain ⟨r1, r2⟩ := first_occ_unique d _ _ _ _ h3 hb' hb
+    subst r1
+    exact ⟨by rw [hf, hf'], by simpa using r2.symm⟩
 
-/-! ### Completeness on well-formed front matter -/
+/-- Recognition depends on the lines only. -/
+theorem split_recognition_of_lines (s s' d : Bytes) (hd : d ≠ [])
+    (hl : lines (stripBom s) = lines (stripBom s')) :
+    (splitOffFrontMatter s d).isSome = (splitOffFrontMatter s' d).isSome := by
+  rw [Bool.eq_iff_iff, split_recognised_iff s d hd, split_recognised_iff s' d hd, hl]
 
-/-- **Completeness (partial).** A text (after an optional BOM) that consists of the delimiter line,
-    a body of at least one line none of whose lines starts with the delimiter, the delimiter line
-    again and then anything, all with one line-end convention (`crlf = false`: LF and no CR
-    anywhere; `crlf = true`: CRLF around the delimiters), is split exactly there; one directly
-    following blank line goes with the front matter. -/
-theorem split_complete_partial (s0 d body rest : Bytes) (crlf : Bool)
-    (hne : d ≠ []) (hlf : (0x0A : UInt8) ∉ d) (hcr : (0x0D : UInt8) ∉ d)
-    (hbody : noLineStartsWith d true body = true)
-    (hu : crlf = false → (0x0D : UInt8) ∉ body ∧ (0x0D : UInt8) ∉ rest)
-    (hs : stripBom s0 = d ++ eol crlf ++ body ++ eol crlf ++ d ++ eol crlf ++ rest) :
-    splitOffFrontMatter s0 d
-      = some (d ++ eol crlf ++ body ++ eol crlf ++ d ++ eol crlf ++ rest.take ((eolLen rest).getD 0),
-              rest.drop ((eolLen rest).getD 0)) := by
-  have hf := findClose_complete d body rest crlf hne hlf hcr hbody hu
-  cases crlf with
-  | false =>
-    have := split_of_parts s0 d [0x0A] body [0x0A] rest (Or.inl rfl) (Or.inl rfl)
-      (by simpa [eol] using hs) (by simpa [eol] using hf)
-    simpa [eol] using this
-  | true =>
-    have := split_of_parts s0 d [0x0D, 0x0A] (body ++ [0x0D]) [0x0D, 0x0A] rest (Or.inr rfl) (Or.inr rfl)
-      (by simpa [eol] using hs) (by simpa [eol] using hf)
-    simpa [eol] using this
-
-/-- **Completeness (partial), closing delimiter at the end of the input.** -/
-theorem split_complete_eof_partial (s0 d body : Bytes) (crlf : Bool)
-    (hne : d ≠ []) (hlf : (0x0A : UInt8) ∉ d) (hcr : (0x0D : UInt8) ∉ d)
-    (hbody : noLineStartsWith d true body = true)
-    (hs : stripBom s0 = d ++ eol crlf ++ body ++ eol crlf ++ d) :
-    splitOffFrontMatter s0 d = some (stripBom s0, []) := by
-  have hf := findClose_complete_eof d body crlf hne hlf hcr hbody
-  cases crlf with
-  | false =>
-    exact split_of_parts_eof s0 d [0x0A] body (Or.inl rfl) (by simpa [eol] using hs) (by simpa [eol] using hf)
-  | true =>
-    exact split_of_parts_eof s0 d [0x0D, 0x0A] (body ++ [0x0D]) (Or.inr rfl) (by simpa [eol] using hs)
-      (by simpa [eol] using hf)
-
-
-/-- The hypothesis on body lines is needed exactly where the code departs from the statement: see
-    `body_line_eof_counterexample`; the uniformity hypothesis: see `mixed_endings_counterexample`;
-    "at least one body line" (the shape `body ++ eol`): see `empty_body_counterexample`. -/
-theorem split_complete_hypotheses_satisfiable :
-    noLineStartsWith [0x2D] true [0x61, 0x3A, 0x2D, 0x0A, 0x20, 0x2D] = true ∧
-    splitOffFrontMatter [0x2D, 0x0A, 0x61, 0x3A, 0x2D, 0x0A, 0x20, 0x2D, 0x0A, 0x2D, 0x0A, 0x0A, 0x78] [0x2D]
-      = some ([0x2D, 0x0A, 0x61, 0x3A, 0x2D, 0x0A, 0x20, 0x2D, 0x0A, 0x2D, 0x0A, 0x0A], [0x78]) := by decide
+/-- **Any mix of line endings.** Rewriting every CRLF, lone CR and LF of a text as LF changes
+    neither whether front matter is recognised nor the lines of the front matter and of the rest
+    (so all spellings of the line ends of a text are split alike; before d92265f the CR-only
+    spelling was not recognised, see `front_matter_cr_repaired`). -/
+theorem front_matter_any_line_endings (s d : Bytes) (hd : d ≠ []) :
+    (splitOffFrontMatter (toLf false s) d).isSome = (splitOffFrontMatter s d).isSome ∧
+    ∀ fm rest fm' rest', splitOffFrontMatter (toLf false s) d = some (fm', rest') →
+      splitOffFrontMatter s d = some (fm, rest) → lines fm' = lines fm ∧ lines rest' = lines rest := by
+  have hl : lines (stripBom (toLf false s)) = lines (stripBom s) := by
+    rw [stripBom_toLf, lines_any_endings]
+  exact ⟨split_recognition_of_lines _ _ d hd hl,
+    fun fm rest fm' rest' h' h => split_lines_invariant _ _ d fm' rest' fm rest hd hl h' h⟩
 
 /-! ### The rest of the document: same lines, line numbers shifted -/
 
@@ -234,15 +267,16 @@ theorem preludes_shift (k n : Nat) (ls : List Bytes)
     have e : n + k + 1 = n + 1 + k := by omega
     simp only [preludes, prelude, List.map_cons, hoff, e, htail]
 
-/-- With front matter taken, the block parser is handed exactly the lines of the rest, numbered
-    from the line after the front matter (a rest that itself starts with U+FEFF excepted: there the
-    mark is text, see `bom_rest_counterexample`). -/
+/-- With front matter taken, the block parser is handed exactly the lines of the rest, with their
+    line numbers shifted by the number of line endings of the front matter (`line_number += lines`
+    in `feed`; that this is the number of its lines: `front_matter_line_count`), a rest that itself
+    starts with U+FEFF excepted: there the mark is text, see `bom_rest_counterexample`. -/
 theorem lines_shift (s d fm rest : Bytes) (h : splitOffFrontMatter s d = some (fm, rest))
     (hb : ∀ l, (parseLines rest).head? = some l → isPrefixB BOM (Feed.sentinel l) = false) :
     parseDoc (some d) s
-      = (some fm, (parseDoc none rest).2.map (fun p => (p.1, p.2.1, p.2.2 + countLF fm))) := by
+      = (some fm, (parseDoc none rest).2.map (fun p => (p.1, p.2.1, p.2.2 + lineEndings fm))) := by
   simp only [parseDoc, h]
-  have := preludes_shift (countLF fm) 0 (parseLines rest) (fun _ _ => hb)
+  have := preludes_shift (lineEndings fm) 0 (parseLines rest) (fun _ _ => hb)
   simp only [Nat.zero_add] at this
   rw [this]
 
@@ -250,6 +284,25 @@ theorem lines_shift (s d fm rest : Bytes) (h : splitOffFrontMatter s d = some (f
 theorem unrecognised_is_ordinary (s d : Bytes) (h : splitOffFrontMatter s d = none) :
     parseDoc (some d) s = parseDoc none s := by
   simp [parseDoc, h]
+
+/-- The shift is the number of lines of the front matter: whenever anything follows the front
+    matter, `count_line_endings` of it is the number of its lines (LF, CRLF and CR alike). -/
+theorem front_matter_line_count (s d fm rest : Bytes) (h : splitOffFrontMatter s d = some (fm, rest))
+    (hr : rest ≠ []) : lineEndings fm = (lines fm).length :=
+  split_line_count s d fm rest h hr
+
+/-- `-\ra\r-\rt` with delimiter `-` (three lines of front matter, each ended by a lone CR): `t` is
+    the fourth line of the text and is numbered 4, as in the LF spelling.  Before /repo commit
+    ef24343 ("fix: count CR and CRLF line endings of the front matter") `feed` advanced the line
+    number by the number of LF bytes of the front matter (`countLF`, here 0) and `t` was numbered 1;
+    repaired there. -/
+theorem bare_cr_line_shift_repaired :
+    parseDoc (some [0x2D]) [0x2D, 0x0D, 0x61, 0x0D, 0x2D, 0x0D, 0x74]
+      = (some [0x2D, 0x0D, 0x61, 0x0D, 0x2D, 0x0D], [([0x74, 0x0A], 0, 4)]) ∧
+    lines [0x2D, 0x0D, 0x61, 0x0D, 0x2D, 0x0D] = [[0x2D], [0x61], [0x2D]] ∧
+    countLF [0x2D, 0x0D, 0x61, 0x0D, 0x2D, 0x0D] = 0 ∧
+    parseDoc (some [0x2D]) [0x2D, 0x0A, 0x61, 0x0A, 0x2D, 0x0A, 0x74]
+      = (some [0x2D, 0x0A, 0x61, 0x0A, 0x2D, 0x0A], [([0x74, 0x0A], 0, 4)]) := by decide
 
 /-! ### Renderer half: what the three formatter models do with the `FrontMatter` node
 
@@ -326,10 +379,10 @@ theorem cm_front_matter_alone (o : Cm.CmOpts) (fm : Bytes) (spd sp : Sp) :
     Cm.renderCm o (docOf spd (.cons (fmNode fm sp) .nil)) = Cm.finalBytes fm.reverse := by
   rw [Cm.renderCm_eq_finalBytes]
   unfold docOf fmNode
-  rw [Cm.renderT_doc_fm_nil, Cm.output_frontMatter_fresh_rv]
+  rw [Cm.renderT_doc_fm_nil, Cm.fmEnd_rv, Cm.output_frontMatter_fresh_rv]
 
-/-- ... in particular a payload that ends with a line feed (every front matter block that is
-    followed by anything does) is reproduced exactly. -/
+/-- ... in particular a payload that ends with a line feed (every front matter block whose last
+    line ends in LF or CRLF does) is reproduced exactly. -/
 theorem cm_front_matter_alone_lf (o : Cm.CmOpts) (body : Bytes) (spd sp : Sp) :
     Cm.renderCm o (docOf spd (.cons (fmNode (body ++ [0x0A]) sp) .nil)) = body ++ [0x0A] := by
   rw [cm_front_matter_alone]
@@ -344,36 +397,59 @@ theorem cm_front_matter_verbatim (o : Cm.CmOpts) (fm : Bytes) (spd sp : Sp) (res
     fm <+: Cm.renderCm o (docOf spd (.cons (fmNode fm sp) rest)) :=
   Cm.renderCm_frontMatter_prefix o fm spd sp rest
 
-/-! ### Where the code departs from the statement (known findings) -/
+/-! ### Repaired in /repo commit d92265f ("fix: recognise front matter line by line")
 
-/-- `---\rfoo\r---\rt`: CR-only line endings are not recognised (C08 finding), the LF form is. -/
-theorem front_matter_cr_counterexample :
-    splitOffFrontMatter [0x2D, 0x2D, 0x2D, 0x0D, 0x66, 0x6F, 0x6F, 0x0D, 0x2D, 0x2D, 0x2D, 0x0D, 0x74]
+Each theorem shows the function as it was (`splitOld`: the former finding) next to the function as
+it is. -/
+
+/-- `---\rfoo\r---\rt`: CR-only line endings were not recognised (former C08 finding); repaired in
+    /repo commit d92265f: CR is a line ending, the split is the same as for the LF spelling. -/
+theorem front_matter_cr_repaired :
+    splitOld [0x2D, 0x2D, 0x2D, 0x0D, 0x66, 0x6F, 0x6F, 0x0D, 0x2D, 0x2D, 0x2D, 0x0D, 0x74]
       [0x2D, 0x2D, 0x2D] = none ∧
+    splitOffFrontMatter [0x2D, 0x2D, 0x2D, 0x0D, 0x66, 0x6F, 0x6F, 0x0D, 0x2D, 0x2D, 0x2D, 0x0D, 0x74]
+      [0x2D, 0x2D, 0x2D]
+      = some ([0x2D, 0x2D, 0x2D, 0x0D, 0x66, 0x6F, 0x6F, 0x0D, 0x2D, 0x2D, 0x2D, 0x0D], [0x74]) ∧
     splitOffFrontMatter [0x2D, 0x2D, 0x2D, 0x0A, 0x66, 0x6F, 0x6F, 0x0A, 0x2D, 0x2D, 0x2D, 0x0A, 0x74]
       [0x2D, 0x2D, 0x2D]
       = some ([0x2D, 0x2D, 0x2D, 0x0A, 0x66, 0x6F, 0x6F, 0x0A, 0x2D, 0x2D, 0x2D, 0x0A], [0x74]) := by
   decide
 
-/-- `---\na\n---b\n---`: a body line that starts with the delimiter defeats the end-of-input
-    alternative, although the last line is the delimiter alone. -/
-theorem body_line_eof_counterexample :
+/-- `---\na\n---b\n---`: a body line that starts with the delimiter used to defeat the
+    end-of-input alternative although the last line is the delimiter alone; repaired in /repo
+    commit d92265f: the whole text is front matter. -/
+theorem body_line_eof_repaired :
+    splitOld [0x2D, 0x2D, 0x2D, 0x0A, 0x61, 0x0A, 0x2D, 0x2D, 0x2D, 0x62, 0x0A, 0x2D, 0x2D, 0x2D]
+      [0x2D, 0x2D, 0x2D] = none ∧
     splitOffFrontMatter [0x2D, 0x2D, 0x2D, 0x0A, 0x61, 0x0A, 0x2D, 0x2D, 0x2D, 0x62, 0x0A, 0x2D, 0x2D, 0x2D]
-      [0x2D, 0x2D, 0x2D] = none := by decide
+      [0x2D, 0x2D, 0x2D]
+      = some ([0x2D, 0x2D, 0x2D, 0x0A, 0x61, 0x0A, 0x2D, 0x2D, 0x2D, 0x62, 0x0A, 0x2D, 0x2D, 0x2D], []) := by
+  decide
 
-/-- `---\n---\nt`: an empty body is not recognised. -/
-theorem empty_body_counterexample :
-    splitOffFrontMatter [0x2D, 0x2D, 0x2D, 0x0A, 0x2D, 0x2D, 0x2D, 0x0A, 0x74] [0x2D, 0x2D, 0x2D] = none := by
+/-- `---\n---\nt`: an empty body was not recognised; repaired in /repo commit d92265f. -/
+theorem empty_body_repaired :
+    splitOld [0x2D, 0x2D, 0x2D, 0x0A, 0x2D, 0x2D, 0x2D, 0x0A, 0x74] [0x2D, 0x2D, 0x2D] = none ∧
+    splitOffFrontMatter [0x2D, 0x2D, 0x2D, 0x0A, 0x2D, 0x2D, 0x2D, 0x0A, 0x74] [0x2D, 0x2D, 0x2D]
+      = some ([0x2D, 0x2D, 0x2D, 0x0A, 0x2D, 0x2D, 0x2D, 0x0A], [0x74]) := by
   decide
 
 /-- `---\na\n---\nb\n---\r\nc`: with mixed line endings a later CRLF-terminated delimiter line
-    is preferred over the first (LF-terminated) one, so `b` disappears into the front matter. -/
-theorem mixed_endings_counterexample :
-    splitOffFrontMatter
+    used to be preferred over the first (LF-terminated) one, so `b` disappeared into the front
+    matter; repaired in /repo commit d92265f: the first closing line wins. -/
+theorem mixed_endings_repaired :
+    splitOld
       [0x2D, 0x2D, 0x2D, 0x0A, 0x61, 0x0A, 0x2D, 0x2D, 0x2D, 0x0A, 0x62, 0x0A, 0x2D, 0x2D, 0x2D, 0x0D, 0x0A, 0x63]
       [0x2D, 0x2D, 0x2D]
     = some ([0x2D, 0x2D, 0x2D, 0x0A, 0x61, 0x0A, 0x2D, 0x2D, 0x2D, 0x0A, 0x62, 0x0A, 0x2D, 0x2D, 0x2D, 0x0D, 0x0A],
-            [0x63]) := by decide
+            [0x63]) ∧
+    splitOffFrontMatter
+      [0x2D, 0x2D, 0x2D, 0x0A, 0x61, 0x0A, 0x2D, 0x2D, 0x2D, 0x0A, 0x62, 0x0A, 0x2D, 0x2D, 0x2D, 0x0D, 0x0A, 0x63]
+      [0x2D, 0x2D, 0x2D]
+    = some ([0x2D, 0x2D, 0x2D, 0x0A, 0x61, 0x0A, 0x2D, 0x2D, 0x2D, 0x0A],
+            [0x62, 0x0A, 0x2D, 0x2D, 0x2D, 0x0D, 0x0A, 0x63]) := by
+  decide
+
+/-! ### Excluded point -/
 
 /-- A rest that starts with U+FEFF: inside the document the mark is text (offset 0 on line 3),
     on its own it is skipped (offset 3). Not a defect: a byte-order mark exists only at the very
@@ -392,11 +468,29 @@ example : splitOffFrontMatter
 -- closing delimiter at the end of the input
 example : splitOffFrontMatter [0x2D, 0x0A, 0x61, 0x0A, 0x2D] [0x2D] = some ([0x2D, 0x0A, 0x61, 0x0A, 0x2D], []) := by
   decide
+-- only one blank line goes with the front matter: "-\na\n-\n\n\nx"
+example : splitOffFrontMatter [0x2D, 0x0A, 0x61, 0x0A, 0x2D, 0x0A, 0x0A, 0x0A, 0x78] [0x2D]
+    = some ([0x2D, 0x0A, 0x61, 0x0A, 0x2D, 0x0A, 0x0A], [0x0A, 0x78]) := by decide
+-- the hypotheses of `split_complete` are satisfiable, every line with another ending, a body line
+-- that starts with the delimiter: "-\r\n-a\r-\n\rx" has the lines ["-", "-a", "-", "", "x"]
+example : lines [0x2D, 0x0D, 0x0A, 0x2D, 0x61, 0x0D, 0x2D, 0x0A, 0x0D, 0x78]
+    = [0x2D] :: [[0x2D, 0x61]] ++ [0x2D] :: [[], [0x78]] := by decide
+example : splitOffFrontMatter [0x2D, 0x0D, 0x0A, 0x2D, 0x61, 0x0D, 0x2D, 0x0A, 0x0D, 0x78] [0x2D]
+    = some ([0x2D, 0x0D, 0x0A, 0x2D, 0x61, 0x0D, 0x2D, 0x0A, 0x0D], [0x78]) := by decide
 -- hypotheses of the `split_none_*` lemmas are satisfiable: " -\na\n-\n", "- \na\n-\n", "-\na\n", "-\na\n-x\n"
+example : (lines (stripBom [0x20, 0x2D, 0x0A, 0x61, 0x0A, 0x2D, 0x0A])).head? ≠ some [0x2D] := by decide
+example : (lines (stripBom [0x2D, 0x20, 0x0A, 0x61, 0x0A, 0x2D, 0x0A])).head? ≠ some [0x2D] := by decide
+example : [0x2D] ∉ (lines (stripBom [0x2D, 0x0A, 0x61, 0x0A])).tail := by decide
+example : [0x2D] ∉ (lines (stripBom [0x2D, 0x0A, 0x61, 0x0A, 0x2D, 0x78, 0x0A])).tail := by decide
 example : isPrefixB [0x2D] (stripBom [0x20, 0x2D, 0x0A, 0x61, 0x0A, 0x2D, 0x0A]) = false := by decide
 example : splitOffFrontMatter [0x2D, 0x20, 0x0A, 0x61, 0x0A, 0x2D, 0x0A] [0x2D] = none := by decide
 example : splitOffFrontMatter [0x2D, 0x0A, 0x61, 0x0A] [0x2D] = none := by decide
 example : splitOffFrontMatter [0x2D, 0x0A, 0x61, 0x0A, 0x2D, 0x78, 0x0A] [0x2D] = none := by decide
+-- `front_matter_line_count`: "-\r\na\r-\n" + "x" has three line endings (CRLF, CR, LF), three lines
+example : splitOffFrontMatter [0x2D, 0x0D, 0x0A, 0x61, 0x0D, 0x2D, 0x0A, 0x78] [0x2D]
+      = some ([0x2D, 0x0D, 0x0A, 0x61, 0x0D, 0x2D, 0x0A], [0x78]) ∧
+    lineEndings [0x2D, 0x0D, 0x0A, 0x61, 0x0D, 0x2D, 0x0A] = 3 ∧
+    (lines [0x2D, 0x0D, 0x0A, 0x61, 0x0D, 0x2D, 0x0A]).length = 3 := by decide
 
 -- renderer half: "-\na\n-\n" + paragraph "x"; HTML has no trace, XML has the element, CommonMark starts with it
 example : renderHtml {} {} (docOf {} (.cons (fmNode [0x2D, 0x0A, 0x61, 0x0A, 0x2D, 0x0A] {})
